@@ -858,4 +858,149 @@ theorem checkData_c01 (cfg : Cfg) (a : A) (h : Hdr) (evs : List Ev)
       rw [this, e4]
       exact errExt_foldl _ _ (fun x y => errExt_foldl _ _ (fun x' y' => errExt_chk _ _ _ _ _ (by simp)) _ _) _ _
 
+/-! ## `checkConnect`: the C06 clauses pass when the decision is the one the property demands -/
+
+/-- what C06 demands of the (observed) connect decision -/
+def ConnOK (cfg : Cfg) (a : A) (u : Nat) (r : Req) (nm : List Nat) (evs : List Ev) : Prop :=
+  if r.modId != 0 then
+    (ackSends evs ≠ [] → mustRefuse cfg a u r nm = false) ∧ (ackSends evs = [] → mayRefuse cfg a u r nm = true)
+  else
+    (ackSends evs ≠ [] → (cfg.dynStart ≤ connId r evs ∧ connId r evs < cfg.maxModules) ∧
+        a.mods.any (fun o => o.alive && o.uid != u && o.modId == connId r evs) = false) ∧
+    (ackSends evs = [] → dynFull cfg a = true)
+
+theorem checkConnect_cases_c06 (cfg : Cfg) (a : A) (u : Nat) (m : AMod) (h : Hdr) (evs : List Ev)
+    (hok : ¬(ackSends evs = [] ∧ a.failing u = true) → ∀ nm, (reqOf cfg m h a.buf).name = some nm →
+      ConnOK cfg a u (reqOf cfg m h a.buf) nm evs) :
+    ∃ Y, ErrExt ["C03", "C07"] a Y ∧
+      ((checkConnect cfg a u m h evs = (Y, none) ∧ ackSends evs = [] ∧ a.failing u = true) ∨
+       (checkConnect cfg a u m h evs = (Y, some false) ∧ (ackSends evs = [] ∨ (reqOf cfg m h a.buf).name = none) ∧
+          ¬(ackSends evs = [] ∧ a.failing u = true)) ∨
+       (∃ nm, (reqOf cfg m h a.buf).name = some nm ∧ ackSends evs ≠ [] ∧
+          checkConnect cfg a u m h evs =
+            (Y.upd u (connUpd (reqOf cfg m h a.buf) nm (connId (reqOf cfg m h a.buf) evs)), some true))) := by
+  unfold checkConnect
+  dsimp only
+  generalize hr : reqOf cfg m h a.buf = r at hok
+  have hacks : List.filter (fun p => p.2.2.body == Body.ack) (sends evs) = ackSends evs := rfl
+  rw [hacks]
+  by_cases h0 : ((ackSends evs).isEmpty && a.failing u) = true
+  · refine ⟨a, ErrExt.refl _ _, Or.inl ⟨by simp only [h0, if_true], ?_, ?_⟩⟩
+    · exact List.isEmpty_iff.mp ((Bool.and_eq_true _ _ ▸ h0).1)
+    · exact (Bool.and_eq_true _ _ ▸ h0).2
+  · simp only [h0, Bool.false_eq_true, if_false]
+    have hnf : ¬(ackSends evs = [] ∧ a.failing u = true) := fun hh => h0 (by simp [hh.1, hh.2])
+    have hok' : ∀ nm, r.name = some nm → ConnOK cfg a u r nm evs := hok hnf
+    by_cases hemp : (ackSends evs).isEmpty = true
+    · -- refused
+      have hnil : ackSends evs = [] := List.isEmpty_iff.mp hemp
+      cases hn : r.name with
+      | none => exact ⟨_, errExt_chk _ _ _ _ _ (by simp), Or.inr (Or.inl ⟨rfl, Or.inl hnil, hnf⟩)⟩
+      | some nm =>
+        have hc := hok' nm hn
+        unfold ConnOK at hc
+        simp only [hemp, Bool.not_true, Bool.false_eq_true, if_false]
+        by_cases hid : (r.modId != 0) = true
+        · simp only [hid, if_true] at hc ⊢
+          have hmay := hc.2 hnil
+          refine ⟨?Y1, ?hE1, Or.inr (Or.inl ⟨?hEq1, Or.inl hnil, hnf⟩)⟩
+          case hEq1 =>
+            rw [chk_of a _ "C06" _ (by simp), chk_of a _ "C06" _ (by simp [hmay])]
+          case hE1 => exact errExt_chk _ _ _ "C07" _ (by simp)
+        · simp only [hid, Bool.false_eq_true, if_false] at hc ⊢
+          have hfull := hc.2 hnil
+          refine ⟨?Y2, ?hE2, Or.inr (Or.inl ⟨?hEq2, Or.inl hnil, hnf⟩)⟩
+          case hEq2 => rw [chk_of a _ "C06" _ hfull]
+          case hE2 => exact errExt_chk _ _ _ "C07" _ (by simp)
+    · -- accepted
+      have hne : ackSends evs ≠ [] := fun e => hemp (List.isEmpty_iff.mpr e)
+      have hemp' : (ackSends evs).isEmpty = false := by simpa using hemp
+      cases hn : r.name with
+      | none => exact ⟨_, errExt_chk _ _ _ _ _ (by simp), Or.inr (Or.inl ⟨rfl, Or.inr rfl, hnf⟩)⟩
+      | some nm =>
+        have hc := hok' nm hn
+        unfold ConnOK at hc
+        simp only [hemp', Bool.not_false, if_true]
+        by_cases hid : (r.modId != 0) = true
+        · simp only [hid, if_true] at hc ⊢
+          have hmust := hc.1 hne
+          refine ⟨?Y3, ?hE3, Or.inr (Or.inr ⟨nm, rfl, hne, ?hEq3⟩)⟩
+          case hEq3 =>
+            rw [chk_of a _ "C06" _ (by simp [hmust]), chk_of a _ "C06" _ (by simp)]
+            unfold connId; simp only [hid, if_true]; rfl
+          case hE3 => exact errExt_chk _ _ _ "C07" _ (by simp)
+        · simp only [hid, Bool.false_eq_true, if_false] at hc ⊢
+          obtain ⟨hrange, hfree⟩ := hc.1 hne
+          cases hh : (ackSends evs).head? with
+          | none => exact absurd (List.head?_eq_none_iff.mp hh) hne
+          | some p =>
+            have hcid : connId r evs = p.2.2.dest := by
+              unfold connId; simp only [hid, Bool.false_eq_true, if_false, hh]
+            rw [hcid] at hrange hfree
+            refine ⟨a, ErrExt.refl _ _, Or.inr (Or.inr ⟨nm, rfl, hne, ?hEq4⟩)⟩
+            dsimp only
+            rw [chk_of a _ "C06" _ (by simp [hrange.1, hrange.2]), chk_of a _ "C06" _ (by simp [hfree]), hcid]
+            rfl
+
+/-- `segment_connect_cases` when the connect decision is the one C06 demands: no C06 entry is added by `checkConnect`.
+    Either no table update (refused, or not observable) — and then the CLIENT_INFO check is made only if the requester's
+    own connection works — or the update with the observed id followed by the acknowledgement check. -/
+theorem segment_connect_cases_c06 (cfg : Cfg) (a : A) (rd : Read) (evs : List Ev) (m : AMod) (hget : a.get rd.uid = some m)
+    (hal : m.alive = true) (hb : brokenRd cfg rd = false)
+    (hc : (rd.h.mtype == cfg.mtConnect || rd.h.mtype == cfg.mtConnectV2) = true) (hcn : m.connected = false)
+    (hok : ¬(ackSends evs = [] ∧ (afterBuf cfg a rd).failing rd.uid = true) → ∀ nm,
+      (reqOf cfg m rd.h (afterBuf cfg a rd).buf).name = some nm →
+      ConnOK cfg (afterBuf cfg a rd) rd.uid (reqOf cfg m rd.h (afterBuf cfg a rd).buf) nm evs) :
+    ∃ Y, ErrExt ["C03", "C07"] (afterBuf cfg a rd) Y ∧
+      (((ackSends evs = [] ∨ (reqOf cfg m rd.h (afterBuf cfg a rd).buf).name = none) ∧
+        (ackSends evs = [] → ∃ W, segment cfg a rd evs = applyDepartures W evs ∧
+          (((afterBuf cfg a rd).failing rd.uid = true ∧ W = checkDepartures cfg Y (some rd.uid) evs) ∨
+           ((afterBuf cfg a rd).failing rd.uid = false ∧ W = checkInfos (checkDepartures cfg Y (some rd.uid) evs) evs)))) ∨
+       (∃ nm, (reqOf cfg m rd.h (afterBuf cfg a rd).buf).name = some nm ∧ ackSends evs ≠ [] ∧
+          segment cfg a rd evs =
+            applyDepartures (checkInfos (checkDepartures cfg (checkAcks cfg
+              (Y.upd rd.uid (connUpd (reqOf cfg m rd.h (afterBuf cfg a rd).buf) nm
+                (connId (reqOf cfg m rd.h (afterBuf cfg a rd).buf) evs))) rd.uid true evs) none evs) evs) evs)) := by
+  have hseg := segment_connect cfg a rd evs m hget hal hb hc hcn
+  obtain ⟨Y, hY, hcases⟩ := checkConnect_cases_c06 cfg (afterBuf cfg a rd) rd.uid m rd.h evs hok
+  refine ⟨Y, hY, ?_⟩
+  rcases hcases with ⟨he, hnil, hfl⟩ | ⟨he, hor, hnf⟩ | ⟨nm, hnm, hne, he⟩
+  · refine Or.inl ⟨Or.inl hnil, fun _ => ⟨_, ?_, Or.inl ⟨hfl, rfl⟩⟩⟩
+    rw [hseg, he]
+  · refine Or.inl ⟨hor, fun hnil => ⟨checkInfos (checkDepartures cfg Y (some rd.uid) evs) evs, ?_, Or.inr ⟨?_, rfl⟩⟩⟩
+    rotate_left
+    · cases hf : (afterBuf cfg a rd).failing rd.uid with
+      | false => rfl
+      | true => exact absurd ⟨hnil, hf⟩ hnf
+    rw [hseg, he]
+    simp only [Bool.false_eq_true, if_false]
+    rw [checkAcks_false_ok cfg Y rd.uid evs hnil]
+  · refine Or.inr ⟨nm, hnm, hne, ?_⟩
+    rw [hseg, he]
+    rfl
+
+/-! ## `checkInfos` passes when every CLIENT_INFO frame describes its module as the table has it -/
+
+theorem checkInfos_ok (a : A) (evs : List Ev)
+    (h : ∀ p ∈ sends evs, ∀ v pid mid lg uq nm, p.2.2.body = Body.info v pid mid lg uq nm → ∀ m, a.get v = some m →
+      m.connected = true → mid = m.modId ∧ lg = m.isLogger ∧ uq = m.unique ∧ nm = m.name ∧ pid = m.pid) :
+    checkInfos a evs = a := by
+  unfold checkInfos
+  apply foldl_fix
+  intro p hp
+  cases hb : p.2.2.body with
+  | info v pid mid lg uq nm =>
+    simp only
+    cases hg : a.get v with
+    | none => rfl
+    | some m =>
+      simp only
+      by_cases hc : m.connected = true
+      · obtain ⟨h1, h2, h3, h4, h5⟩ := h p hp v pid mid lg uq nm hb m hg hc
+        simp only [hc, Bool.not_true, Bool.false_eq_true, if_false]
+        exact chk_of _ _ _ _ (by simp [h1, h2, h3, h4, h5])
+      · have : m.connected = false := by simpa using hc
+        simp [this]
+  | _ => rfl
+
 end Pyrtma.Mgr.Spec
